@@ -63,6 +63,24 @@ fn main() {
         println!("{{\"outcome\":\"{}\",\"message\":\"{}\"}}", outcome, esc(&msg));
         return;
     }
+    if args.len() == 3 && args[1] == "--scss-file" {
+        // compile a stylesheet from disk (loads of other files go through the real FsLoader)
+        let format = rsass::output::Format { style: rsass::output::Style::Expanded, precision: 10 };
+        let path = std::path::PathBuf::from(&args[2]);
+        panic::set_hook(Box::new(|_| {}));
+        let res = panic::catch_unwind(move || {
+            rsass::compile_scss_path(&path, format)
+                .map(|v| String::from_utf8_lossy(&v).into_owned())
+                .map_err(|e| format!("{e:?}"))
+        });
+        let (outcome, msg) = match res {
+            Ok(Ok(css)) => ("ok", css),
+            Ok(Err(e)) => ("error", e),
+            Err(_) => ("panic", String::new()),
+        };
+        println!("{{\"outcome\":\"{}\",\"message\":\"{}\"}}", outcome, esc(&msg));
+        return;
+    }
     if args.len() < 2 {
         eprintln!("usage: replay <harness> [hex,hex,...]");
         std::process::exit(3);
